@@ -1,5 +1,9 @@
 (* Recorded findings of C01 (not part of the gate): machine-checked witnesses at the model + specification
-   level.  In each, the engine model (escape_text from the start context) ends in the text context -- so the
+   level.  D1, D42 (an action inside a DOCTYPE) and D43 are violations of C01.  D13, D41 and D44 are
+   misalignments between the engine's context and the tokenizer's state on the AUTHOR'S static markup;
+   they were first reported under C01 by an oracle that demanded a final data state and data in
+   data/RCDATA text only -- more than the property states -- and are kept here as witnesses of the
+   misalignment only: the C01 oracle does not flag them (D13 and D44 are violations of C02).  In each, the engine model (escape_text from the start context) ends in the text context -- so the
    engine accepts the template and treats what follows as ordinary text -- while the WHATWG tokenizer
    specification, run over the same bytes, is somewhere else. *)
 From V Require Import lib.Base model.TContext model.TSanitize model.TSanitizers model.TTree model.TEscapeText
@@ -27,7 +31,9 @@ Lemma C01_D13_witness :
   finding_D13 d13_text = true /\
   (* the rest of the author's markup is consumed as script data, and the fragment does not end in data *)
   ends_in_data (d13_text ++ B "zq<b>") = false /\
-  placement_ok (d13_text ++ B "zq<b>") [(length d13_text, 2%nat)] = false.
+  (* script data is the content of a text node: NOT a C01 violation (the structure found with the
+     placeholder and with hostile data is the same); that data reaches a script body is property C02 *)
+  placement_ok (d13_text ++ B "zq<b>") [(length d13_text, 2%nat)] = true.
 Proof. vm_compute. repeat split; reflexivity. Qed.
 
 (* D41: raw-text elements the engine does not model *)
@@ -175,5 +181,7 @@ Lemma C01_D44_witness :
   tok_final d44_text = SScriptData /\
   finding_D44 d44_text = true /\
   finding_D44 (B "<script x=" ++ [34] ++ B "y" ++ [34] ++ B "></script>") = false /\
-  placement_ok (d44_text ++ B "alert(1)//") [(length d44_text, 10%nat)] = false.
+  (* as for D13: the data is script source (property C02), the markup structure is what the author wrote *)
+  placement_ok (d44_text ++ B "alert(1)//") [(length d44_text, 10%nat)] = true /\
+  same_structure (d44_text ++ B "zq") (d44_text ++ B "alert(1)//") = true.
 Proof. vm_compute. repeat split; reflexivity. Qed.
